@@ -79,7 +79,7 @@ Definition resolve_uses_reported_status (evs : list event) : Prop :=
      (exists p ttl m secs, In (ECtsReply r s p (StLocked ttl m true secs)) pre)) \/
     (exists p ttl m secs, In (ECtsReply r s p (StLocked ttl m true secs)) pre /\ m <= c /\
        forall k, In k secs ->
-         exists ks' l m', In (ECslReply r s ks' (CslLocks l)) pre /\ In (k, m') l /\ m' <= c).
+         exists ks' l m', In (ECslReply r s ks' (CslLocks l)) pre /\ In (k, m') l /\ m' <= c /\ m' <> 0).
 
 (* 5 — the tso bound is stated for the LAST commit_call of s before the send (System keeps the
    causal flag / watermark of the latest commit_call only). *)
@@ -168,3 +168,9 @@ Definition csl_only_listed (evs : list event) : Prop :=
   forall pre post r s ks, evs = pre ++ ECslSend r s ks :: post ->
     exists p ttl m secs, In (ECtsReply r s p (StLocked ttl m true secs)) pre /\
       forall k, In k ks -> In k secs.
+
+(* 11 (rule 3, nonAsyncCommitLock): a forced (force_sync_commit) CheckTxnStatus only after CheckSecondaryLocks
+   reported to r a lock of s that is not an async-commit lock (reported min-commit 0) *)
+Definition force_only_after_nonasync (evs : list event) : Prop :=
+  forall pre post r s p caller cur rbine respess, evs = pre ++ ECtsSend r s p caller cur rbine true respess :: post ->
+    exists ks l k, In (ECslReply r s ks (CslLocks l)) pre /\ In (k, 0) l.
